@@ -23,30 +23,14 @@ var (
 	zzBudget    int
 	zzAutoPhase bool // reset the per-phase bookkeeping at the phase starts used by buildParticipantConfig
 	zzSentinel  bool
-	zzDistinct  int // > 0: enumerated mode, the table holds exactly the ids 1..zzDistinct (plus repetitions)
-	zzUsed      int // enumerated mode: ids 1..zzUsed have been drawn so far
 )
 
 func zzResetDraws(budget int, auto bool) {
 	zzDraws = map[uint32]uint32{}
-	zzSeen, zzWasted, zzBudget, zzAutoPhase, zzSentinel, zzDistinct, zzUsed = nil, 0, budget, auto, false, 0, 0
+	zzSeen, zzWasted, zzBudget, zzAutoPhase, zzSentinel = nil, 0, budget, auto, false
 }
 
 func zzNewPhase() { zzSeen, zzWasted = nil, 0 }
-
-// enumerated draw: any id drawn before, or - ids being interchangeable until they are drawn - the smallest id
-// not drawn yet (canonical labelling); every choice is explored
-func zzEnumDraw() uint32 {
-	n := zzUsed
-	if zzUsed < zzDistinct {
-		n++
-	}
-	id := 1 + zzsym.Choose("draw", n)
-	if id > zzUsed {
-		zzUsed = id
-	}
-	return uint32(id)
-}
 
 func zzCalc(vrf vconfig.VRFValue, dposTable []uint32, k uint32) uint32 {
 	if k >= 512 {
@@ -58,13 +42,9 @@ func zzCalc(vrf vconfig.VRFValue, dposTable []uint32, k uint32) uint32 {
 	}
 	id, ok := zzDraws[k]
 	if !ok {
-		if zzDistinct > 0 {
-			id = zzEnumDraw()
-		} else {
-			idx := zzsym.U32("draw")
-			zzsym.Assume(idx < uint32(len(dposTable)))
-			id = dposTable[idx]
-		}
+		idx := zzsym.U32("draw")
+		zzsym.Assume(idx < uint32(len(dposTable)))
+		id = dposTable[idx]
 		zzDraws[k] = id
 	}
 	known := false
@@ -219,27 +199,13 @@ func zzCheckConfig(chain *vconfig.ChainConfig, cfg *BlockParticipantConfig) {
 	zzsym.Assert(cfg.Vrf == zzSeedVal && cfg.ChainConfig == chain, "the configuration records the seed and the chain configuration it was derived from")
 }
 
-// N in 1..NMAX, C = floor((N-1)/3), a table that holds exactly the ids 1..m (m in 1..N) padded to N entries:
-// participant ids are interchangeable for the code under test, so one table per number of distinct ids is used
-// and the draws are enumerated (zzEnumDraw) instead of being decided by the solver.
-func zzEnumChain() (*vconfig.ChainConfig, int) {
-	n := 1 + zzsym.Choose("N", zzsym.Param("NMAX"))
-	m := 1 + zzsym.Choose("distinct", n)
-	table := make([]uint32, n)
-	for i := range table {
-		table[i] = uint32(1 + i%m)
-	}
-	return &vconfig.ChainConfig{N: uint32(n), C: uint32((n - 1) / 3), PosTable: table}, m
-}
-
 // buildParticipantConfig on a directly constructed Server; the seed (a JSON + SHA-512 digest of the previous
-// block) is replaced by an arbitrary 64-byte value; draws are arbitrary table entries (enumerated).
+// block) is replaced by an arbitrary 64-byte value, draws as above.
 func ZZ_C40_BuildConfig() {
-	chain, m := zzEnumChain()
+	chain := zzChain()
 	copy(zzSeedVal[:], zzsym.Bytes("seed", vconfig.VRF_SIZE))
 	blkNum := zzsym.U32("blkNum")
 	zzResetDraws(zzsym.Param("R"), true)
-	zzDistinct = m
 	cfg, err := zzServer(1).buildParticipantConfig(blkNum, nil, chain)
 	if blkNum == 0 {
 		zzsym.Assert(err != nil && cfg == nil, "no participant configuration for the genesis block")
